@@ -221,7 +221,9 @@ def build_model(timeout=600):
 
 
 def model_vos():
-    return [f[:-2] + ".vo" for f in coq_files() if f.startswith("Model/") or f.startswith("Spec/") or f.startswith("Gen/")]
+    """the .vo files the extraction needs: the dependency closure of Extract/Extract.v"""
+    deps = [f for f in coq_deps("Extract/Extract.v") if not f.startswith("Extract/")]
+    return [f[:-2] + ".vo" for f in deps]
 
 
 MODELRUN = os.path.join(VERIF, "ocaml", "modelrun")
